@@ -388,7 +388,8 @@ def program_features(p):
     return f
 
 
-SUGAR_FORMS = ["disj", "pat_test", "pat_bind", "wildcard", "repeated_var", "same_clause_expr", "neg", "multi_head", "fact"]
+# (cross_clause_repeated_var: counted only for the cases whose hand expansion writes cross-clause repeats out, gen/c07_perm.py)
+SUGAR_FORMS = ["disj", "pat_test", "pat_bind", "wildcard", "repeated_var", "same_clause_expr", "neg", "multi_head", "fact", "cross_clause_repeated_var"]
 
 
 def rule_body_rels(items):
